@@ -200,11 +200,9 @@ func c20rng(r *Run, s string) {
 	case err == nil && strict:
 		r.Stat("rng:accept-strict")
 	case err == nil:
-		// the helper is internal: its leniency is reported where a public API exposes it (rngapi)
+		// not cell:cell but decoded: the two leniencies repaired in the fix window get their old kind
 		r.Stat("rng:accept-loose:" + c20looseKind(s))
-		if c20looseKind(s) == "other" {
-			r.Fail("rng:accept-non-range", fmt.Sprintf("rangeRefToCoordinates(%q) accepted: neither cell:cell nor one of the two known leniencies", s), ln, "rng "+hx(s))
-		}
+		r.Fail("rng:accept-non-range:"+c20looseKind(s), fmt.Sprintf("rangeRefToCoordinates(%q) accepted although it is not cell:cell with two A1 references inside the grid", s), ln, "rng "+hx(s))
 	case strict:
 		r.Fail("rng:reject-valid", fmt.Sprintf("rangeRefToCoordinates(%q) rejected although it is cell:cell inside the grid", s), ln, "rng "+hx(s))
 	default:
